@@ -1,9 +1,12 @@
 #!/bin/sh
-# usage: tools/confirm_seed.sh <ID>   (worktree /tmp/wt_<ID> with patch applied, demo_<ID>.py, patch_<ID>.diff)
+# usage: tools/confirm_seed.sh <ID>   (worktree /tmp/wt_<ID> with the change applied, demo_<ID>.py, patch_<ID>.diff)
+# no `git stash`: the stash is shared by all worktrees of a repository
 ID=$1; W=/tmp/wt_$ID
 cd $W || exit 9
-echo "--- $ID: suite with change"; /venv/bin/python -m pytest -q -p no:cacheprovider --timeout=900 2>&1 | tail -1
-echo "--- demo with change"; /venv/bin/python demo_$ID.py > /tmp/demo_with.txt 2>&1; echo "exit=$?"
-git stash -q -- OpenPinch
-echo "--- demo without change"; /venv/bin/python demo_$ID.py > /tmp/demo_without.txt 2>&1; echo "exit=$?"
-git stash pop -q
+git diff -- OpenPinch > /tmp/cur_$ID.diff
+cmp -s /tmp/cur_$ID.diff patch_$ID.diff && echo "--- $ID: worktree diff == patch file" || echo "--- $ID: WARNING worktree diff differs from patch_$ID.diff"
+echo "--- suite with change"; /venv/bin/python -m pytest -q -p no:cacheprovider --timeout=900 2>&1 | tail -1
+echo "--- demo with change"; /venv/bin/python demo_$ID.py > /tmp/demo_with_$ID.txt 2>&1; echo "exit=$?"
+git apply -R /tmp/cur_$ID.diff || exit 9
+echo "--- demo without change"; /venv/bin/python demo_$ID.py > /tmp/demo_without_$ID.txt 2>&1; echo "exit=$?"
+git apply /tmp/cur_$ID.diff
